@@ -15,7 +15,7 @@ func C05EdiTail() {
 	in := zz.NondetBytes("in", L)
 	for i := range in {
 		b := in[i]
-		zz.Assume(b == '~' || b == '*' || b == 'A' || b == '\n' || b == '?')
+		zz.Assume(zz.ByteIn(b, "~*A\n?"))
 	}
 	decl := &FileDecl{SegDelim: "~", ElemDelim: "*", ReleaseChar: zzStrPtr("?")}
 	r := NewNonValidatingReader(&zzChunkReader{data: in, failAt: -1}, decl)
